@@ -259,3 +259,192 @@ Proof.
   { destruct Hrem as [|Hm1]; [assumption|]. pose proof (Z.shiftr_nonneg f (cntZ c p)) as [_ Hx]. specialize (Hx Hpos). lia. }
   apply shiftr_0 in H; [|assumption]. apply Z.mod_small. assumption.
 Qed.
+
+(* ====================================================================================== *)
+(* What the value-level match_bitpattern means, declaratively *)
+
+(* matched = every '0' position holds a 0 bit and every '1' position holds a 1 bit *)
+Lemma match_bits_spec v : forall prev i,
+  match_bits prev v i = true <->
+  (forall j c, nth_error prev j = Some c ->
+     (c = 48 -> Z.testbit v (i + Z.of_nat j) = false) /\ (c = 49 -> Z.testbit v (i + Z.of_nat j) = true)).
+Proof.
+  induction prev as [|x t IH]; intros i; cbn [match_bits].
+  - split; [intros _ j c H; destruct j; discriminate|reflexivity].
+  - rewrite andb_true_iff, IH. split.
+    + intros [Hx Ht] j c Hj. destruct j as [|j]; cbn [nth_error] in Hj.
+      * inversion Hj; subst c. rewrite Z.add_0_r. split; intros ->; cbn [Z.eqb Pos.eqb] in Hx.
+        -- destruct (Z.testbit v i); [discriminate|reflexivity].
+        -- exact Hx.
+      * replace (i + Z.of_nat (S j)) with (i + 1 + Z.of_nat j) by lia. apply Ht. assumption.
+    + intros H. split.
+      * destruct (H 0%nat x eq_refl) as [H0 H1]. rewrite Z.add_0_r in *.
+        destruct (x =? 48) eqn:E0; [rewrite H0 by lia; reflexivity|].
+        destruct (x =? 49) eqn:E1; [apply H1; lia|reflexivity].
+      * intros j c Hj. replace (i + 1 + Z.of_nat j) with (i + Z.of_nat (S j)) by lia. apply H. assumption.
+Qed.
+
+(* ====================================================================================== *)
+(* The converse round trip: packing the fields match_bitpattern decoded from a matching value
+   gives that value back. *)
+
+(* bits i .. i+n-1 of v *)
+Definition hi (v i n : Z) : Z := (v / 2 ^ i) mod 2 ^ n.
+
+Lemma hi_0 v i : hi v i 0 = 0.
+Proof. unfold hi. rewrite Z.pow_0_r. apply Z.mod_1_r. Qed.
+
+Lemma hi_succ v i n : 0 <= i -> 0 <= n -> hi v i (n + 1) = b2z (Z.testbit v i) + 2 * hi v (i + 1) n.
+Proof.
+  intros Hi Hn. unfold hi. rewrite (pow2_succ n) by assumption.
+  assert (Hp : 0 < 2 ^ n) by (apply pow2_pos; assumption).
+  assert (Hq : 0 < 2 ^ i) by (apply pow2_pos; assumption).
+  rewrite Z.rem_mul_r by lia.
+  rewrite (pow2_succ i) by assumption.
+  rewrite (Z.mul_comm 2 (2 ^ i)). rewrite <- Z.div_div by lia.
+  rewrite Z.testbit_eqb by assumption.
+  pose proof (Z.mod_pos_bound (v / 2 ^ i) 2 ltac:(lia)) as Hb.
+  destruct (Z.eqb_spec ((v / 2 ^ i) mod 2) 1) as [E|E]; cbn [b2z]; lia.
+Qed.
+
+Lemma field_val_scale c v : forall prev i k, 0 <= k ->
+  field_val prev c v i (k + 1) = 2 * field_val prev c v i k.
+Proof.
+  induction prev as [|x t IH]; intros i k Hk; cbn [field_val]; [lia|].
+  destruct (x =? c).
+  - rewrite IH by lia. rewrite (pow2_succ k) by assumption. lia.
+  - apply IH. assumption.
+Qed.
+
+Lemma map_fst_updZ k nv fm : map fst (updZ k nv fm) = map fst fm.
+Proof.
+  induction fm as [|[k' v'] t IH]; [reflexivity|]. cbn [updZ]. destruct (k =? k'); cbn [map fst]; [reflexivity|].
+  rewrite IH. reflexivity.
+Qed.
+
+Lemma loop_converse v : forall prev fm i acc,
+  0 <= i ->
+  match_bits prev v i = true -> ~ In 63 prev ->
+  (forall c fv, assocZ c fm = Some fv -> is01 c = false /\ fv = field_val prev c v i 0) ->
+  (forall c, In c prev -> is01 c = false -> assocZ c fm <> None) ->
+  exists fm', b2v_loop prev fm i acc = Ok (acc + 2 ^ i * hi v i (Z.of_nat (length prev)), fm')
+     /\ map fst fm' = map fst fm
+     /\ (forall c fv, assocZ c fm' = Some fv -> fv = 0).
+Proof.
+  induction prev as [|x t IH]; intros fm i acc Hi Hm Hq Hfm Hkeys.
+  - exists fm. cbn [b2v_loop length Z.of_nat]. rewrite hi_0. split; [f_equal; f_equal; lia|].
+    split; [reflexivity|]. intros c fv H. destruct (Hfm c fv H) as [_ ->]. reflexivity.
+  - cbn [match_bits] in Hm. apply andb_true_iff in Hm. destruct Hm as [Hx Hm].
+    assert (Hq' : ~ In 63 t) by (intro; apply Hq; right; assumption).
+    assert (Hx63 : (x =? 63) = false) by (destruct (x =? 63) eqn:E; [exfalso; apply Hq; left; lia|reflexivity]).
+    cbn [b2v_loop length]. rewrite Nat2Z.inj_succ. replace (Z.succ (Z.of_nat (length t))) with (Z.of_nat (length t) + 1) by lia.
+    rewrite hi_succ by lia.
+    destruct (x =? 48) eqn:E0.
+    { assert (Hb : Z.testbit v i = false) by (destruct (Z.testbit v i); [discriminate|reflexivity]).
+      destruct (IH fm (i + 1) acc ltac:(lia) Hm Hq') as [fm' [E [Hk Hz]]].
+      - intros c fv H. destruct (Hfm c fv H) as [H01 ->]. split; [assumption|].
+        cbn [field_val]. rewrite (not01_neq c x) by (assumption || (unfold is01; lia)). reflexivity.
+      - intros c Hc. apply Hkeys. right. assumption.
+      - exists fm'. rewrite E, Hb. cbn [b2z]. rewrite (pow2_succ i) by assumption. split; [f_equal; f_equal; lia|]. auto. }
+    destruct (x =? 49) eqn:E1.
+    { assert (Hb : Z.testbit v i = true) by exact Hx.
+      destruct (IH fm (i + 1) (acc + 2 ^ i) ltac:(lia) Hm Hq') as [fm' [E [Hk Hz]]].
+      - intros c fv H. destruct (Hfm c fv H) as [H01 ->]. split; [assumption|].
+        cbn [field_val]. rewrite (not01_neq c x) by (assumption || (unfold is01; lia)). reflexivity.
+      - intros c Hc. apply Hkeys. right. assumption.
+      - exists fm'. rewrite E, Hb. cbn [b2z]. rewrite (pow2_succ i) by assumption. split; [f_equal; f_equal; lia|]. auto. }
+    rewrite Hx63.
+    assert (Hx01 : is01 x = false) by (unfold is01; lia).
+    destruct (assocZ x fm) as [fx|] eqn:Ex; [|exfalso; apply (Hkeys x (or_introl eq_refl) Hx01); assumption].
+    destruct (Hfm x fx Ex) as [_ Hfx]. cbn [field_val] in Hfx. rewrite Z.eqb_refl in Hfx.
+    rewrite (field_val_scale x v t (i + 1) 0) in Hfx by lia. rewrite Z.pow_0_r, Z.mul_1_r in Hfx.
+    set (F := field_val t x v (i + 1) 0) in *. set (b := b2z (Z.testbit v i)) in *.
+    assert (Hb : b = 0 \/ b = 1) by (unfold b; destruct (Z.testbit v i); cbn; lia).
+    assert (Hland : Z.land fx 1 = b).
+    { rewrite land1, Hfx. symmetry. apply (Z.mod_unique _ _ F); lia. }
+    assert (Hshr : Z.shiftr fx 1 = F).
+    { rewrite Z.shiftr_div_pow2 by lia. change (2 ^ 1) with 2. rewrite Hfx. symmetry.
+      apply (Z.div_unique _ _ F b); lia. }
+    rewrite Hland, Hshr.
+    destruct (IH (updZ x F fm) (i + 1) (acc + b * 2 ^ i) ltac:(lia) Hm Hq') as [fm' [E [Hk Hz]]].
+    + intros c fv H. rewrite assoc_upd in H. destruct (c =? x) eqn:Ecx.
+      * assert (c = x) by lia. subst c. rewrite Ex in H. inversion H; subst fv. split; [assumption|reflexivity].
+      * destruct (Hfm c fv H) as [H01 ->]. split; [assumption|].
+        cbn [field_val]. replace (x =? c) with false by lia. reflexivity.
+    + intros c Hc H01. rewrite assoc_upd. destruct (c =? x) eqn:Ecx.
+      * rewrite Ex. discriminate.
+      * apply Hkeys; [right; assumption|assumption].
+    + exists fm'. rewrite E. rewrite (pow2_succ i) by assumption. split; [f_equal; f_equal; lia|].
+      split; [rewrite Hk; apply map_fst_updZ|assumption].
+Qed.
+
+Lemma memZ_true c l : memZ c l = true -> In c l.
+Proof.
+  unfold memZ. induction l as [|x t IH]; cbn [existsb]; [discriminate|]. intros H.
+  apply orb_true_iff in H. destruct H as [H|H]; [left; lia|right; apply IH; assumption].
+Qed.
+
+Lemma field_order_complete : forall p seen c,
+  In c p \/ In c seen -> is01 c = false -> In c (field_order p seen).
+Proof.
+  induction p as [|x t IH]; intros seen c H H01; cbn [field_order].
+  - destruct H as [[]|H]. apply in_rev in H. assumption.
+  - destruct (is01 x || memZ x seen) eqn:E.
+    + apply IH; [|assumption]. destruct H as [[->|H]|H]; auto.
+      apply orb_true_iff in E. destruct E as [E|E]; [congruence|]. right. apply memZ_true. assumption.
+    + apply IH; [|assumption]. destruct H as [[->|H]|H]; [right; left; reflexivity|left; assumption|right; right; assumption].
+Qed.
+
+Lemma assoc_combine_map (f : Z -> Z) : forall l c,
+  (In c l -> assocZ c (combine l (map f l)) = Some (f c)) /\
+  (forall fv, assocZ c (combine l (map f l)) = Some fv -> In c l /\ fv = f c).
+Proof.
+  induction l as [|x t IH]; intros c; cbn [map combine assocZ].
+  - split; [intros []|discriminate].
+  - destruct (c =? x) eqn:E.
+    + assert (c = x) by lia. subst. split; [reflexivity|]. intros fv H. inversion H. split; [left; reflexivity|reflexivity].
+    + destruct (IH c) as [H1 H2]. split.
+      * intros [->|H]; [lia|apply H1; assumption].
+      * intros fv H. destruct (H2 fv H). split; [right; assumption|assumption].
+Qed.
+
+Lemma assoc_of_in : forall (l : list (Z * Z)) k v, NoDup (map fst l) -> In (k, v) l -> assocZ k l = Some v.
+Proof.
+  induction l as [|[k' v'] t IH]; intros k v Hnd Hin; [contradiction|].
+  cbn [map fst] in Hnd. inversion Hnd as [|? ? Hk Ht]; subst. cbn [assocZ].
+  destruct Hin as [Heq|Hin].
+  - inversion Heq; subst. rewrite Z.eqb_refl. reflexivity.
+  - destruct (k =? k') eqn:E.
+    + assert (k = k') by lia. subst. exfalso. apply Hk. apply in_map_iff. exists (k', v). split; [reflexivity|assumption].
+    + apply IH; assumption.
+Qed.
+
+Lemma match_then_pack p v :
+  p <> [] -> nospace p = p -> ~ In 63 p -> 0 <= v < 2 ^ Z.of_nat (length p) ->
+  fst (match_bitpattern v p) = true ->
+  bitpattern_to_val p (snd (match_bitpattern v p)) = Ok v.
+Proof.
+  intros Hne Hns Hq Hv Hm. unfold match_bitpattern in *. rewrite Hns in *. cbn [fst snd] in *.
+  unfold bitpattern_to_val. destruct p as [|p0 pt] eqn:Ep; [contradiction|]. rewrite <- Ep in *. clear Ep p0 pt Hne.
+  destruct (field_order_props p [] (NoDup_nil _) ltac:(intros c [])) as [Hnd Hin].
+  set (lifo := field_order p []) in *.
+  assert (Hnames : field_names p = lifo).
+  { unfold field_names. fold lifo. apply filter_id. intros c Hc.
+    destruct (c =? 63) eqn:E; [|reflexivity]. exfalso. assert (c = 63) by lia. subst c.
+    destruct (Hin 63 Hc) as [_ [Hp|[]]]. contradiction. }
+  rewrite Hnames. set (f := fun c => field_val (rev p) c v 0 0).
+  rewrite map_length, Nat.eqb_refl. cbn [negb].
+  destruct (loop_converse v (rev p) (combine lifo (map f lifo)) 0 0 ltac:(lia) Hm) as [fm' [E [Hk Hz]]].
+  - intro H. apply Hq. apply in_rev. assumption.
+  - intros c fv H. destruct (proj2 (assoc_combine_map f lifo c) fv H) as [Hc ->].
+    split; [apply (Hin c Hc)|reflexivity].
+  - intros c Hc H01. rewrite (proj1 (assoc_combine_map f lifo c)); [discriminate|].
+    apply field_order_complete; [left; apply in_rev; assumption|assumption].
+  - rewrite E. rewrite rev_length.
+    assert (Hall : forallb (fun kv => (snd kv =? 0) || (snd kv =? -1)) fm' = true).
+    { apply forallb_forall. intros [k fv] Hkv. cbn [snd].
+      assert (Hnd' : NoDup (map fst fm')).
+      { rewrite Hk. rewrite map_fst_combine by (rewrite map_length; reflexivity). assumption. }
+      rewrite (Hz k fv (assoc_of_in fm' k fv Hnd' Hkv)). reflexivity. }
+    rewrite Hall. f_equal. unfold hi. rewrite Z.pow_0_r, Z.div_1_r. rewrite Z.mod_small by assumption. lia.
+Qed.
